@@ -272,7 +272,7 @@ Proof.
     split; [apply wf_app; split; [exact Hwres | apply wf_cons; split; [lia | apply wf_nil]]|].
     split; [rewrite !app_length; cbn [length]; lia|].
     rewrite firstn_app. replace (n - length res)%nat with 0%nat by lia. cbn [firstn]. rewrite app_nil_r.
-    rewrite skipn_app. replace (n - length res)%nat with 0%nat by lia. cbn [skipn]. rewrite value_app. cbn [value]. fold B.
+    rewrite skipn_app. replace (n - length res)%nat with 0%nat by lia. cbn [skipn]. rewrite (value_app w (skipn n res) [q]). cbn [value]. fold B.
     rewrite len_skipn. replace (len res - Z.of_nat (min n (length res))) with (Z.of_nat k) by (unfold len; lia).
     rewrite Hrem, Hquo.
     (* value (lo ++ [top]) = value lo' + q * V * B^k *)
@@ -283,8 +283,8 @@ Proof.
       rewrite Hlo, Hlo', Hrv, Hqv. unfold U in *. nia. }
     pose proof (Z.mod_pos_bound (value lo') V HVpos) as Hmb'. pose proof (Z.div_mod (value lo') V ltac:(lia)) as Hdm'.
     rewrite Htot. split.
-    + symmetry. apply Z.mod_unique with (value lo' / V + B ^ Z.of_nat k * q); [left; lia | nia].
-    + symmetry. apply Z.div_unique with (value lo' mod V); [left; lia | nia].
+    + apply Z.mod_unique with (value lo' / V + B ^ Z.of_nat k * q); [left; lia | nia].
+    + apply Z.div_unique with (value lo' mod V); [left; lia | nia].
 Qed.
 
 (** *** simple::div_rem_in_place *)
